@@ -3,5 +3,6 @@ package main
 func init() {
 	props["C05"] = cfg("./c05", false, withAssume(
 		"pairs of sets that are equal under exactly one of {bitwise, Go ==} equality (+0 vs -0, NaN payloads) are not asserted either way",
+		"strings are byte strings: the value supplied is the bytes supplied; renderings that cannot carry invalid UTF-8 (JSON, the default encoder) are not compared for such values; that Set.MarshalJSON succeeds is not asserted, only that what it returns reads back as the contents",
 	))
 }
